@@ -447,6 +447,9 @@ func DependsOnCut(v ssa.Value, pred func(ssa.Value) bool, cut func(ssa.Value) bo
 					return true
 				}
 			}
+			if allocCopiedFrom(a, walk) {
+				return true
+			}
 		}
 		// loads from (a part of) an Alloc depend on the values stored to (any part of) it
 		if u, ok := x.(*ssa.UnOp); ok && u.Op == token.MUL {
@@ -456,11 +459,38 @@ func DependsOnCut(v ssa.Value, pred func(ssa.Value) bool, cut func(ssa.Value) bo
 						return true
 					}
 				}
+				if allocCopiedFrom(root, walk) {
+					return true
+				}
 			}
 		}
 		return false
 	}
 	return walk(v)
+}
+
+// allocCopiedFrom: an array variable that is filled through copy(a[:], src) depends on src.
+func allocCopiedFrom(a *ssa.Alloc, walk func(ssa.Value) bool) bool {
+	refs := a.Referrers()
+	if refs == nil {
+		return false
+	}
+	for _, r := range *refs {
+		sl, ok := r.(*ssa.Slice)
+		if !ok || sl.Referrers() == nil {
+			continue
+		}
+		for _, r2 := range *sl.Referrers() {
+			if cl, ok := r2.(*ssa.Call); ok {
+				if bi, ok := cl.Call.Value.(*ssa.Builtin); ok && bi.Name() == "copy" && len(cl.Call.Args) == 2 && cl.Call.Args[0] == ssa.Value(sl) {
+					if walk(cl.Call.Args[1]) {
+						return true
+					}
+				}
+			}
+		}
+	}
+	return false
 }
 
 // DependsOnPrecise is DependsOn except that the result of a small repository helper (at most 12 blocks) depends
